@@ -48,6 +48,14 @@ Theorem C17_update_total :
     exists links' reps, update (parse_line int_of) decompress decode_utf8 links url data = Ok (links', reps).
 Proof. exact update_total_any. Qed.
 
+(* The loop over all configured inventories (System.fetchIntersphinxInventories) returns as well. *)
+Theorem C17_fetch_all_total :
+  forall (int_of : text -> option Z) (decompress : list N -> option (list N)) (decode_utf8 : list N -> option text)
+         (fetches : list (text * option (list N))) (links : dict) (reps : list report),
+    exists links' reps',
+      update_all (update (parse_line int_of) decompress decode_utf8) links reps fetches = Ok (links', reps').
+Proof. exact update_all_total. Qed.
+
 (* For every payload: _parseInventory returns; every bad line yields exactly one report (in order, naming the line) and
    nothing else is reported; every usable Python line that is not overridden by a later one of the same name is in the
    map with its location -- whatever bad lines stand before or after it; and the map holds nothing else. *)
@@ -143,6 +151,21 @@ Example C17_space_digit_read_as :
   parse_line py_int (line_body w_name (py_prefix ++ w_module) w_url)
   = Ok (Cols [97] [49] 2 (py_prefix ++ w_module) (minus_one ++ sp ++ w_url ++ sp ++ dash)).
 Proof. vm_compute. reflexivity. Qed.
+
+(* The second guard of the whole-inventory theorem (`no_break` in `name_ok`) is needed as well: a qualified name that
+   holds a str.splitlines() boundary -- only a module FILE name can, e.g. "a\x0cb.py" -- is cut into two lines. Names
+   that are Python identifiers joined by dots never do. *)
+Theorem C17_roundtrip_linebreak_name_refuted :
+  exists name url,
+    int_guard py_int name /\ ~ In SP url /\
+    parse_inventory (parse_line py_int) [104] (line_body name (py_prefix ++ w_module) url ++ [10])
+    <> Ok ([(name, ([104], url))], []).
+Proof.
+  exists [97; 12; 98], w_url. split; [|split].
+  - intros j q Hj Hq. vm_compute in Hq. destruct j as [|[|j]]; [inversion Hj|inversion Hj as [|? H1]; inversion H1|discriminate].
+  - apply notin_by_compute. reflexivity.
+  - vm_compute. discriminate.
+Qed.
 
 (* the guard is met by the names pydoctor produces for duplicates *)
 Example C17_guard_satisfiable :
